@@ -1,5 +1,6 @@
 ---- MODULE TraceKernels ----
-(* C11, validate direction: what MatrixSort / MatrixReverseSort really returned, judged by TLC.            *)
+(* C11, validate direction: what MatrixSort / MatrixReverseSort and MatrixGetMaxValueIndex /               *)
+(* MatrixGetMinValueIndex really returned, judged by TLC.                                                  *)
 (* The result of sorting is not a function of the input when keys tie, so it cannot be replayed against one  *)
 (* expected value: the harness records input and output and the specification accepts ANY row permutation     *)
 (* ordered by the key column (Prop layer).  The Impl layer pins the permutation the present exchange sort     *)
@@ -22,7 +23,14 @@ PropSort(ev) == /\ ev.exact = 1                                    \* every cell
 ImplSort(ev) == PropOnly \/ ev.res = ExchangeSort(ev.m, ev.key, ev.rev = 1)
 TSort == l <= Len(Tr) /\ Ev.e = "Sort" /\ Step /\ PropSort(Ev) /\ ImplSort(Ev)
 
-TNext == TReset \/ TSort
+(* MatrixGetMaxValueIndex / MatrixGetMinValueIndex: the returned (0-based) position must hold an extreme value of the   *)
+(* recorded matrix (Prop: any extreme cell); the Impl layer pins the one the column-major scan ends on.                    *)
+PropArg(ev) == /\ Shaped(ev.m, ev.rows, ev.cols) /\ ev.rows >= 1 /\ ev.cols >= 1 /\ ev.max \in {0, 1}
+               /\ IsArgExt(ev.m, ev.rows, ev.cols, ev.row + 1, ev.col + 1, ev.max = 1)
+ImplArg(ev) == PropOnly \/ LastArgExt(ev.m, ev.rows, ev.cols, ev.row + 1, ev.col + 1, ev.max = 1)
+TArgExt == l <= Len(Tr) /\ Ev.e = "ArgExt" /\ Step /\ PropArg(Ev) /\ ImplArg(Ev)
+
+TNext == TReset \/ TSort \/ TArgExt
 TSpec == TInit /\ [][TNext]_tvars
 TraceAccepted == Accepted
 Diag == ShowCursor(l)
